@@ -28,9 +28,9 @@ from props import extlib as X
 ID = 'LINK'
 COQ_PROPS = ['Props/C07link.v', 'Props/C09link.v', 'Props/C10link.v']
 THEOREMS = ['C07_valid_content', 'C07_content_valid_partial', 'C07_content_valid_refuted', 'C07_serialisable',
-            'C07_closure_serialisable', 'C07_C19_inject_models_agree',
+            'C07_closure_serialisable', 'C07_closure_reloads', 'C07_C19_inject_models_agree',
             'C09_from_to_content', 'C09_constructors_agree_content', 'C09_from_json_models_agree', 'C09_roundtrip_ext',
-            'C10_gate_ext_partial', 'C10_gate_ext_refuted', 'C10_gates_accept_valid']
+            'C10_gate_ext_partial', 'C10_gate_ext_refuted', 'C10_gates_accept_valid', 'C10_valid_iff_rules']
 ALLOWED_AXIOMS = []
 TABLES = ['t_content', 't_classes', 't_ext_tol', 't_cli']
 RULE = ('content: valid nondegenerate extensions of every dimensionality incl. (X,Y,Z,1), (X,Y,Z,1,V), (X,Y,Z,T,1), every '
@@ -55,8 +55,8 @@ ASSUMPTIONS = [
     'theorems that go from check_valid to Ext.Spec.valid carry the provisos positive extents / nondegenerate / storable / tight '
     'base dictionaries; each is shown necessary by a refutation witness (the blind spots of check_valid, open finding N14)',
     'JSON reload of an extension is proved for JSON-well-formed keys and values (Json.wf: scalar code points, float tokens of the '
-    'JSON grammar); that the OPERATIONS only ever produce values taken from their inputs is not proved here '
-    '(C07_closure_serialisable states the reload for a well-formed result)',
+    'JSON grammar); C07_closure_reloads carries this through histories of operations by provenance (the operations only ever '
+    'produce values / keys of their inputs or None), so the hypothesis is on the inputs only',
 ]
 
 ERRMAP = {'InvalidExtensionError': 'EInvalidExt', 'KeyError': 'EKey', 'TypeError': 'EType', 'ValueError': 'EValue',
